@@ -95,7 +95,7 @@ def main():
         for d in dirs:
             if os.path.isfile(d): files.append(d); continue
             files += glob.glob(d + "/**/*.patch", recursive=True) + glob.glob(d + "/**/patch.diff", recursive=True)
-        files = sorted(set(os.path.abspath(f) for f in files))
+        files = sorted(set(os.path.abspath(f) for f in files if "/_invalid/" not in f))
         reg = registered()
         def work(f):
             exp = expected_of(f)
